@@ -60,8 +60,10 @@ class Result(object):
 
     MAX_SAMPLES = 6
     MAX_VIOL_PER_KEY = 3
+    LIVE = []          # every Result made in this process (a shard that crashes in the harness still reports what it had decided)
 
     def __init__(self):
+        Result.LIVE.append(self)
         self.evaluations = 0
         self.distinct = set()
         self.counters = {}
